@@ -199,6 +199,37 @@ def resolve(key):
     return o
 
 
+def profiles(rnd, budget):
+    """Quality profiles: exhaustive for small totals, then near-ties, single-category, tiny shares in huge totals, random."""
+    out = []
+    tot = 0
+    while len(out) < budget // 2:
+        for a in range(tot + 1):
+            for b in range(tot - a + 1):
+                for c in range(tot - a - b + 1):
+                    out.append([a, b, c, tot - a - b - c])
+        tot += 1
+    special = [[0, 0, 31, 62], [0, 0, 60000, 61], [0, 0, 61, 60000], [60, 20, 20, 0], [0, 1995, 198004, 3], [205, 3, 40731, 203],
+               [1, 1, 1, 0], [0, 1, 1, 1], [100000, 0, 1, 0], [100000, 0, 0, 1], [99999, 0, 1, 1], [150000, 0, 0, 70],
+               [0, 0, 1, 1], [0, 0, 1, 2], [333, 333, 333, 1], [10 ** 9, 0, 10 ** 4 + 1, 0], [10 ** 9, 0, 0, 10 ** 4 + 1]]
+    out.extend(special)
+    while len(out) < budget:
+        scale = rnd.choice([10, 100, 1000, 10 ** 5, 10 ** 7])
+        p = [rnd.randint(0, scale) for _ in range(4)]
+        for k in range(4):
+            if rnd.random() < 0.3:
+                p[k] = rnd.choice([0, 1, 2])
+        out.append(p)
+    return out
+
+
+def install_stub(key, holder):
+    mod, qn = key.split(":")
+    m = importlib.import_module(mod)
+    cn, mn = qn.split(".", 1)
+    setattr(getattr(m, cn), mn, lambda *a, **k: list(holder["value"]))
+
+
 def main():
     job = json.load(sys.stdin)
     rnd = random.Random(job.get("seed", 0))
@@ -227,6 +258,15 @@ def main():
             combos.append(tuple(p[i % len(p)] for p in pools))
         while len(combos) < budget:
             combos.append(tuple(rnd.choice(p) for p in pools))
+    stub_holder = None
+    if job.get("stubs"):
+        (skey, gname), = job["stubs"].items()
+        stub_holder = {"value": None}
+        install_stub(skey, stub_holder)
+        vals = profiles(rnd, budget)
+        base = combos[: max(1, min(len(combos), 3))]
+        combos = [c + (v,) for v in vals for c in base[:1]]
+        names = names + ["$stub"]
     if job.get("wrap"):
         speclib.wrap_calls(job["wrap"])
     env0 = speclib.base_env()
@@ -236,7 +276,9 @@ def main():
     failures = []
     samples = []
     for combo in combos:
-        args = {n: dc(v) for n, v in zip(names, combo)}
+        args = {n: dc(v) for n, v in zip(names, combo) if n != "$stub"}
+        if stub_holder is not None:
+            stub_holder["value"] = combo[-1]
         env = dict(env0)
         env.update(args)
         try:
